@@ -207,6 +207,7 @@ func (in *Interp) hashUF(alg string, outLen int, data []Value) []Value {
 		for i := range out {
 			out[i] = tb.BVConst(8, uint64(sum[i]))
 		}
+		in.hashConc = append(in.hashConc, hashConcRec{alg, raw, sum})
 		return out
 	}
 	if conc && alg == "ripemd160" {
@@ -218,6 +219,7 @@ func (in *Interp) hashUF(alg string, outLen int, data []Value) []Value {
 		for i := range out {
 			out[i] = tb.BVConst(8, uint64(sum[i]))
 		}
+		in.hashConc = append(in.hashConc, hashConcRec{alg, raw, sum})
 		return out
 	}
 	name := fmt.Sprintf("%s_%d", alg, len(data))
@@ -236,6 +238,7 @@ func (in *Interp) hashUF(alg string, outLen int, data []Value) []Value {
 		h = tb.App(name, BV(outLen*8), arg)
 	}
 	in.usedStubs["hash:"+alg] = true
+	in.hashApps = append(in.hashApps, h)
 	for i := range out {
 		hi := (outLen-i)*8 - 1
 		out[i] = tb.Extract(h, hi, hi-7)
@@ -965,4 +968,10 @@ func init() {
 		}
 		return in.tb.Cmp(OUlt, a, b)
 	}
+}
+
+type hashConcRec struct {
+	alg    string
+	in     []byte
+	digest []byte
 }
